@@ -90,6 +90,10 @@ func outlen(c any) int { return 0 }
 func outbyte(c any, i int) byte { return 0 }
 func outwrites(c any) int { return 0 }
 func closedconn(c any) bool { return false }
+func rdeadline(c any) int { return 0 }
+func deadlineArmed(c any) bool { return false }
+func succeeded(f string) bool { return false }
+func called(f string) bool { return false }
 func fresh(x any) bool { return true }
 func allocated(x any) bool { return true }
 func typeIs[T any](x any) bool { return true }
@@ -127,6 +131,8 @@ func mapof(x any) any { return x }
 func conn(x any) any { return x }
 func connin(x any) any { return x }
 func connout(x any) any { return x }
+func connclosed(x any) any { return x }
+func conndeadline(x any) any { return x }
 func lockstate(x any) any { return x }
 `
 
@@ -390,10 +396,11 @@ func (w *World) buildPkg(p *Pkg) error {
 			}
 		} else if lit == nil && sig.Recv() != nil {
 			rn := sig.Recv().Name()
-			if rn != "" && rn != "_" {
-				params = append(params, localVar{rn, sig.Recv().Type()})
-				skip[rn] = true
+			if rn == "" || rn == "_" {
+				rn = "recv"
 			}
+			params = append(params, localVar{rn, sig.Recv().Type()})
+			skip[rn] = true
 		}
 		for i := 0; i < sig.Params().Len(); i++ {
 			v := sig.Params().At(i)
@@ -661,6 +668,14 @@ func (w *World) lookupExternalSig(p *Pkg, fc *FuncContract) (*types.Signature, t
 	} else {
 		i := strings.LastIndex(key, ".")
 		if i < 0 {
+			// a function type of this package ("type Responder = func(...)..."): the contract every
+			// value of that type is assumed to satisfy when it is called
+			if tn, ok := p.PP.Types.Scope().Lookup(key).(*types.TypeName); ok {
+				if sg, ok := types.Unalias(tn.Type()).Underlying().(*types.Signature); ok {
+					fc.FullKey = funcTypeKey(sg)
+					return sg, nil
+				}
+			}
 			return nil, nil
 		}
 		pkgPath, fname := key[:i], key[i+1:]
@@ -704,6 +719,18 @@ func (w *World) lookupExternalSig(p *Pkg, fc *FuncContract) (*types.Signature, t
 		fc.FullKey = "(" + pkgPath + "." + tname + ")." + name
 	}
 	return f.Type().(*types.Signature), rt
+}
+
+// funcTypeKey: contract key of a function type (parameter names dropped).
+func funcTypeKey(sg *types.Signature) string {
+	strip := func(t *types.Tuple) *types.Tuple {
+		var vs []*types.Var
+		for i := 0; i < t.Len(); i++ {
+			vs = append(vs, types.NewVar(0, nil, "", t.At(i).Type()))
+		}
+		return types.NewTuple(vs...)
+	}
+	return "functype:" + types.TypeString(types.NewSignatureType(nil, nil, nil, strip(sg.Params()), strip(sg.Results()), sg.Variadic()), nil)
 }
 
 func allFunctions(pkg *ssa.Package) []*ssa.Function {
